@@ -24,6 +24,7 @@ pub enum Step {
   Require(u8, u8),     // task, checker kind: 0 equals, 1 always-consistent, 2 within-1-of-the-stamped-output
   Write(u8, u8),       // resource, constant added to the accumulator
   WrittenTo(u8, u8),   // resource: create_writer + written_to
+  WriteFlaky(u8, u8),  // write with the checker whose `check` fails on demand
   WrittenToBadStamp(u8, u8), // the same, declared with a checker whose stamping fails: the task gets an Err back (and ignores it)
   IfOdd(Vec<Step>, Vec<Step>),
 }
@@ -148,6 +149,12 @@ fn exec<C: Context>(steps: &[Step], c: &mut C, acc: &mut u32) {
         { let key = Res(*r); let mut w = c.create_writer(&key).unwrap(); w.insert(val); }
         SHADOW.with(|m| { m.borrow_mut().insert(*r, val); });
         c.written_to(&Res(*r), MapEqualsChecker).unwrap();
+        seen("write", format!("Res({})", r), format!("{:?}", Some(val)));
+      }
+      Step::WriteFlaky(r, add) => {
+        let val = (*acc as u8).wrapping_add(*add);
+        c.write(&Res(*r), FlakyChecker, |w| { w.insert(val); Ok(()) }).unwrap();
+        SHADOW.with(|m| { m.borrow_mut().insert(*r, val); });
         seen("write", format!("Res({})", r), format!("{:?}", Some(val)));
       }
       Step::WrittenToBadStamp(r, add) => {
@@ -1053,6 +1060,14 @@ pub fn fixed_cases() -> Vec<(&'static str, Vec<Vec<Step>>, Vec<Act>)> {
     ("tolerated changes of a required output do not move the stamp the dependency was created with",
      vec![vec![Require(1, 2)], vec![Read(0, 0)]],
      vec![Act::Set(0, 10), Act::TopDown(0), Act::Set(0, 11), Act::TopDown(0), Act::Set(0, 12), Act::TopDown(0), Act::Set(0, 13), Act::TopDown(0)]),
+    // the failing check is the one of a WRITE dependency (all earlier dependencies consistent), top-down and bottom-up
+    ("a check that fails for a write dependency",
+     vec![vec![Read(0, 0), WriteFlaky(2, 1)], vec![Require(0, 1), Read(2, 0)]],
+     vec![Act::Set(0, 0), Act::TopDown(1), Act::TopDownFlaky(0), Act::TopDown(1), Act::Set(2, 9), Act::BottomUpFlaky, Act::TopDown(1)]),
+    // two readers of one resource, the check of the one recorded FIRST fails: the other one is still checked and scheduled
+    ("a failing check does not end the scheduling of the other dependents",
+     vec![vec![Read(0, 3)], vec![Read(0, 0)], vec![Require(0, 0), Require(1, 0)]],
+     vec![Act::Set(0, 0), Act::TopDown(2), Act::Set(0, 1), Act::BottomUpFlaky, Act::TopDown(2)]),
     ("a check that fails for a task validated two levels below the required root",
      vec![vec![Require(1, 0)], vec![Read(0, 3)]],
      vec![Act::Set(0, 0), Act::TopDown(0), Act::Set(0, 1), Act::TopDownFlaky(0), Act::TopDown(0)]),
